@@ -18,13 +18,13 @@ TASKS_PER_CHILD = 6
 
 
 def atoms(tier):
-    core = [a for a in A.atoms_core() if not a.name.endswith("(anon)")]
-    return core
+    # + the anonymous struct member (two folded fields): commits that follow it see a folded field count that differs from the raw one
+    return list(A.atoms_core()) + [a for a in A.atoms_wide() if a.name.endswith("(anon)")]
 
 
 def seqs(tier):
     core = atoms(tier)
-    reps = [a for a in core if a.name in ("uint8", "uint32", "uint24", "char[n0]", "char[]", "in_t", "ind_t", "uint8:3", "uint16:4", "uint16:12", "un_t", "uint16[2]")]
+    reps = [a for a in core if a.name in ("uint8", "uint32", "uint24", "char[n0]", "char[]", "in_t", "ind_t", "uint8:3", "uint16:4", "uint16:12", "un_t", "uint16[2]") or a.name.endswith("(anon)")]
     seen = set()
     out = []
 
@@ -236,8 +236,8 @@ def check_seq(names, endian, align, compiled, res: JobResult, tier):
                     cs.load(pre, compiled=compiled, align=align)
                 # field type objects exactly as the parser creates them
                 cs.load(f"struct TMP__ {{ {render_body(st)} }};", compiled=False, align=align)
-                ftypes = [(f._name, f.type, f.bits) for f in cs.TMP__.__fields__]
-                T = cs._make_struct("S", [Field(n, t, bits=b) for n, t, b in ftypes[:init]], align=align)
+                ftypes = [(f._name, f.type, f.bits, f.name) for f in cs.TMP__.__fields__]  # f.name is None for an anonymous member
+                T = cs._make_struct("S", [Field(rn, t, bits=b) for n, t, b, rn in ftypes[:init]], align=align)
                 if compiled:
                     T = compiler.compile(T)
                 cs.add_type("S", T)
@@ -259,21 +259,21 @@ def check_seq(names, endian, align, compiled, res: JobResult, tier):
                 bi += 1
                 try:
                     if len(batch) == 1:
-                        n, t, b = ftypes[batch[0]]
-                        T.add_field(n, t, bits=b)
+                        n, t, b, rn = ftypes[batch[0]]
+                        T.add_field(rn, t, bits=b)
                         hist.append(f"add_field({n})")
                     elif cut is None:
                         with T.start_update():
                             for i in batch:
-                                n, t, b = ftypes[i]
-                                T.add_field(n, t, bits=b)
+                                n, t, b, rn = ftypes[i]
+                                T.add_field(rn, t, bits=b)
                         hist.append("batch(" + ",".join(ftypes[i][0] for i in batch) + ")")
                     else:
                         try:
                             with T.start_update():
                                 for i in batch[:cut]:
-                                    n, t, b = ftypes[i]
-                                    T.add_field(n, t, bits=b)
+                                    n, t, b, rn = ftypes[i]
+                                    T.add_field(rn, t, bits=b)
                                 raise Interrupt
                         except Interrupt:
                             pass
